@@ -33,6 +33,16 @@ def corpus():
         if explicit is None:
             continue
         out.append((p, explicit, explicit == name))
+        if fn.endswith(".xyz") and explicit == "xyz":
+            # an extended XYZ file under the plain extension (its comment line carries key=value pairs): also a file of that format
+            try:
+                with open(p) as fh:
+                    fh.readline()
+                    second = fh.readline()
+            except OSError:
+                second = ""
+            if "Properties=" in second or "Lattice=" in second:
+                out.append((p, "extxyz", False))
     return out
 
 
